@@ -4,6 +4,9 @@ CFG = dict(
     coq="Properties/C13.v",
     areas=["purity"],
     level="proof",
+    # "checked" = release speed with debug assertions and overflow checks: ties the model's Panic outcomes
+    # (debug_assert!, checked arithmetic) to the code
+    profiles=["release", "checked"],
     theorems_expected=["C13_lookahead_clamped", "C13_enc_partition_independent_lzma1", "C13_enc_partition_independent_lzma2", "C13_lzma2_run_exact", "C13_history_kept"],
     rule="purity: cases = (option vector, writer kind LZMAWriter header/marker/declared-size variants | LZIPWriter with/without member size | "
          "LZMA2Writer | XZWriter (no chunk/block size for the C13 verdict), optional preset dictionary, data from 10 compressibility classes plus "
